@@ -22,6 +22,9 @@ EfiCase(p) ==
                   [op |-> "efi_areas", it |-> 4], [op |-> "nth", it |-> 4, n |-> 9], [op |-> "next", it |-> 4], [op |-> "len", it |-> 4],
                   [op |-> "last", it |-> 0], [op |-> "last", it |-> 1], [op |-> "count", it |-> 1], [op |-> "nth", it |-> 1, n |-> 1], [op |-> "len", it |-> 1],
                   [op |-> "len", it |-> 1], [op |-> "next", it |-> 1], [op |-> "size_hint", it |-> 1],
-                  [op |-> "dbg", what |-> "efi_mmap"]>>,
+                  [op |-> "dbg", what |-> "efi_mmap"],
+                  \* the other public route to the tag (walk, cast) - the same checks guard the same iteration
+                  [op |-> "efi_areas", it |-> 7, via |-> "cast"], [op |-> "len", it |-> 7], [op |-> "next", it |-> 7],
+                  [op |-> "next", it |-> 7], [op |-> "last", it |-> 7]>>,
    desc |-> [area |-> "efi"] @@ p]
 =============================================================================
